@@ -10,6 +10,7 @@ import (
 	"sort"
 	"strings"
 	"testing"
+	"verif/fold"
 
 	"github.com/alicebob/sqlittle"
 	sdb "github.com/alicebob/sqlittle/db"
@@ -86,7 +87,7 @@ func TestC10Schema(t *testing.T) {
 func lowerSet(xs []string) string {
 	ys := append([]string{}, xs...)
 	for i := range ys {
-		ys[i] = strings.ToLower(ys[i])
+		ys[i] = fold.Lower(ys[i])
 	}
 	sort.Strings(ys)
 	return strings.Join(ys, ",")
@@ -96,11 +97,11 @@ func normColl(c string) string {
 	if c == "" {
 		return "binary"
 	}
-	return strings.ToLower(c)
+	return fold.Lower(c)
 }
 
 func interacting(def string) bool {
-	u := strings.ToUpper(def)
+	u := fold.Upper(def)
 	n := strings.Count(u, "UNIQUE") + strings.Count(u, "PRIMARY KEY")
 	return n >= 2 || (n >= 1 && (strings.Contains(u, "COLLATE") || strings.Contains(u, "WITHOUT ROWID") || strings.Contains(u, "DESC")))
 }
@@ -175,7 +176,7 @@ func run(r *vt.Run, t vt.TB, s spec) {
 		}
 		var tdef *e1.TableSpec
 		for i := range s.DB.Tables {
-			if strings.EqualFold(s.DB.Tables[i].Def.Ident.Name, name) || name == "renamed_table" && i == len(s.DB.Tables)-1 {
+			if fold.Equal(s.DB.Tables[i].Def.Ident.Name, name) || name == "renamed_table" && i == len(s.DB.Tables)-1 {
 				tdef = &s.DB.Tables[i]
 			}
 		}
@@ -218,11 +219,11 @@ func run(r *vt.Run, t vt.TB, s spec) {
 			gotCols = append(gotCols, c.Column)
 		}
 		// identifiers are case-insensitive in SQL: names are compared that way
-		if !strings.EqualFold(strings.Join(gotCols, "\x00"), strings.Join(wantCols, "\x00")) {
+		if !fold.Equal(strings.Join(gotCols, "\x00"), strings.Join(wantCols, "\x00")) {
 			fail("columns-differ", "columns %q, SQLite %q", gotCols, wantCols)
 			return
 		}
-		if cerr != nil || !strings.EqualFold(strings.Join(cols, "\x00"), strings.Join(wantCols, "\x00")) {
+		if cerr != nil || !fold.Equal(strings.Join(cols, "\x00"), strings.Join(wantCols, "\x00")) {
 			fail("columns-differ", "Columns() = %q (%v), SQLite %q", cols, cerr, wantCols)
 			return
 		}
@@ -260,7 +261,7 @@ func run(r *vt.Run, t vt.TB, s spec) {
 				gotAlias = c.Column
 			}
 		}
-		if !strings.EqualFold(gotAlias, alias) || sch.RowidPK != (alias != "") {
+		if !fold.Equal(gotAlias, alias) || sch.RowidPK != (alias != "") {
 			fail("rowid-alias-differs", "rowid alias column %q (RowidPK=%v), SQLite %q", gotAlias, sch.RowidPK, alias)
 			return
 		}
@@ -276,12 +277,12 @@ func run(r *vt.Run, t vt.TB, s spec) {
 					if x.Desc {
 						d = "DESC"
 					}
-					wantPK = append(wantPK, strings.ToLower(x.Name)+"/"+normColl(x.Coll)+"/"+d)
+					wantPK = append(wantPK, fold.Lower(x.Name)+"/"+normColl(x.Coll)+"/"+d)
 				}
 			}
 			var gotPK []string
 			for _, c := range sch.PK {
-				gotPK = append(gotPK, strings.ToLower(c.Column)+"/"+normColl(c.Collate)+"/"+c.SortOrder.String())
+				gotPK = append(gotPK, fold.Lower(c.Column)+"/"+normColl(c.Collate)+"/"+c.SortOrder.String())
 			}
 			if strings.Join(gotPK, ",") != strings.Join(wantPK, ",") {
 				fail("pk-differs", "primary key %v, SQLite %v", gotPK, wantPK)
@@ -295,10 +296,10 @@ func run(r *vt.Run, t vt.TB, s spec) {
 			for _, x := range cat.PKIndex.Cols {
 				// (a key may hold a column twice, under two collations: the
 				// record then stores it twice; the first copy is as good as any)
-				if !seen[strings.ToLower(x.Name)] {
-					seen[strings.ToLower(x.Name)] = true
+				if !seen[fold.Lower(x.Name)] {
+					seen[fold.Lower(x.Name)] = true
 					for i, c := range cat.Columns {
-						if strings.EqualFold(c.Name, x.Name) {
+						if fold.Equal(c.Name, x.Name) {
 							wantOrder[i] = pos
 						}
 					}
@@ -319,7 +320,7 @@ func run(r *vt.Run, t vt.TB, s spec) {
 					wantPKName = ii.Name
 				}
 			}
-			if !strings.EqualFold(sch.PrimaryKey, wantPKName) {
+			if !fold.Equal(sch.PrimaryKey, wantPKName) {
 				fail("pk-index-differs", "primary key index %q, SQLite %q", sch.PrimaryKey, wantPKName)
 				return
 			}
@@ -329,7 +330,7 @@ func run(r *vt.Run, t vt.TB, s spec) {
 		for _, six := range sch.Indexes {
 			var ii *e1.IndexInfo
 			for k := range cat.Indexes {
-				if strings.EqualFold(cat.Indexes[k].Name, six.Index) {
+				if fold.Equal(cat.Indexes[k].Name, six.Index) {
 					ii = &cat.Indexes[k]
 				}
 			}
@@ -346,7 +347,7 @@ func run(r *vt.Run, t vt.TB, s spec) {
 				if x.Desc {
 					d = "DESC"
 				}
-				n := strings.ToLower(x.Name)
+				n := fold.Lower(x.Name)
 				if x.Cid == -2 {
 					n = "<expr>"
 				}
@@ -357,7 +358,7 @@ func run(r *vt.Run, t vt.TB, s spec) {
 			}
 			var got []string
 			for _, c := range six.Columns {
-				n := strings.ToLower(c.Column)
+				n := fold.Lower(c.Column)
 				coll := normColl(c.Collate)
 				if c.Column == "" {
 					n = "<expr>"
@@ -386,7 +387,7 @@ func run(r *vt.Run, t vt.TB, s spec) {
 					return
 				}
 				for k, p := range pos {
-					if p < 0 || p >= len(ii.Cols) || !strings.EqualFold(ii.Cols[p].Name, sch.PK[k].Column) {
+					if p < 0 || p >= len(ii.Cols) || !fold.Equal(ii.Cols[p].Name, sch.PK[k].Column) {
 						var wantAll []string
 						for _, x := range ii.Cols {
 							wantAll = append(wantAll, x.Name)
